@@ -1,9 +1,12 @@
 package stk
 
 import (
+	"encoding/json"
 	"fmt"
 	"math/big"
 	"os"
+	"strconv"
+	"strings"
 
 	tmtypes "github.com/tendermint/tendermint/types"
 
@@ -56,28 +59,65 @@ type Observer interface {
 var traceOn = os.Getenv("STK_TRACE") != ""
 
 // traceBlock prints a block the way the oracles see it (STK_TRACE=1; diagnosis only).
-// mixtures returns every combination of old and new option values except the all-old one.
-func mixtures(a, b StakingOpts) []StakingOpts {
+// stakingUpdateOf returns the staking option field and value a PROPOSAL_CREATE asks for ("stakingOptions.<field>:<value>").
+func stakingUpdateOf(raw []byte) (string, string, bool) {
+	var stx struct {
+		Data []byte `json:"data"`
+	}
+	if json.Unmarshal(raw, &stx) != nil {
+		return "", "", false
+	}
+	var m struct {
+		ConfigUpdate string `json:"configUpdate"`
+	}
+	if json.Unmarshal(stx.Data, &m) != nil || !strings.HasPrefix(m.ConfigUpdate, "stakingOptions.") {
+		return "", "", false
+	}
+	kv := strings.SplitN(strings.TrimPrefix(m.ConfigUpdate, "stakingOptions."), ":", 2)
+	if len(kv) != 2 {
+		return "", "", false
+	}
+	return kv[0], kv[1], true
+}
+
+// mixtures returns the option sets that may have been in force at some moment of a block in which a delivered
+// PROPOSAL_FINALIZE changed the options (the block-end hook may have finalised further proposals after the election):
+// per option the old value, the new value or a value named by a config-update proposal created so far, in any
+// combination except the all-old one.
+func mixtures(a, b StakingOpts, proposed map[string][]string) []StakingOpts {
+	mins := []*big.Int{a.Min, b.Min}
+	for _, v := range proposed["minSelfDelegationAmount"] {
+		if x, ok := new(big.Int).SetString(v, 10); ok {
+			mins = append(mins, x)
+		}
+	}
+	tops := []int64{a.Top, b.Top}
+	for _, v := range proposed["topValidatorCount"] {
+		if x, err := strconv.ParseInt(v, 10, 64); err == nil {
+			tops = append(tops, x)
+		}
+	}
+	mats := []int64{a.Maturity, b.Maturity}
+	for _, v := range proposed["maturityTime"] {
+		if x, err := strconv.ParseInt(v, 10, 64); err == nil {
+			mats = append(mats, x)
+		}
+	}
 	var out []StakingOpts
-	for m := 1; m < 8; m++ {
-		o := a
-		if m&1 != 0 {
-			o.Min = b.Min
-		}
-		if m&2 != 0 {
-			o.Top = b.Top
-		}
-		if m&4 != 0 {
-			o.Maturity = b.Maturity
-		}
-		dup := o.Equal(a)
-		for _, x := range out {
-			if x.Equal(o) {
-				dup = true
+	for _, mn := range mins {
+		for _, tp := range tops {
+			for _, mt := range mats {
+				o := StakingOpts{Min: mn, Top: tp, Maturity: mt}
+				dup := o.Equal(a)
+				for _, x := range out {
+					if x.Equal(o) {
+						dup = true
+					}
+				}
+				if !dup {
+					out = append(out, o)
+				}
 			}
-		}
-		if !dup {
-			out = append(out, o)
 		}
 	}
 	return out
@@ -163,6 +203,7 @@ func Execute(h *run.H, tr *hist.Trace, draw func(w *hist.World, last *View, i in
 	}
 	prev := Decode(0, w.Primary().DumpMap())
 	seen := map[string]bool{}
+	proposed := map[string][]string{} // staking option field -> values named by config-update proposals created so far
 	for i := 0; ; i++ {
 		var st hist.Step
 		if draw != nil {
@@ -207,6 +248,11 @@ func Execute(h *run.H, tr *hist.Trace, draw func(w *hist.World, last *View, i in
 			if ti.Kind == "PROPOSAL_FINALIZE" && ti.Code == 0 {
 				finalizeTx = true
 			}
+			if ti.Kind == "PROPOSAL_CREATE" && ti.Code == 0 {
+				if f, v, ok := stakingUpdateOf(raw); ok {
+					proposed[f] = append(proposed[f], v)
+				}
+			}
 			c.Txs = append(c.Txs, ti)
 		}
 		base := prev.Staking
@@ -220,7 +266,7 @@ func Execute(h *run.H, tr *hist.Trace, draw func(w *hist.World, last *View, i in
 			// a delivered PROPOSAL_FINALIZE changed the options inside the block; the block-end hook may have finalised
 			// another proposal after the election: what was in force at a given moment is the old or the new value of
 			// each option, in any combination
-			for _, o := range mixtures(base, c.Cur.Staking) {
+			for _, o := range mixtures(base, c.Cur.Staking, proposed) {
 				c.EndOpts = append(c.EndOpts, o)
 				c.TxOpts = append(c.TxOpts, o)
 			}
